@@ -43,6 +43,9 @@ extern void          nni_verif_expire_scan_inc(void);
 // True while the reaper thread has work queued or in progress (reap.c).
 extern bool nni_verif_reap_busy(void);
 
+// short-I/O clamp (core/aio.c nni_aio_iov_clamp_len): bytes per read/write system call
+extern size_t nni_verif_io_max;
+
 extern bool nni_verif_tracing(void);
 // fmt/... produce the body of a JSON object without braces, e.g.
 // "\"rv\":%d"; may be NULL.
